@@ -207,18 +207,15 @@ func schedOnce(o SchedOpts) SchedStats {
 						continue
 					}
 					lvl := it.level + 1
-					if lvl <= 2 && o.NShards > 1 {
-						// shard on the first two deviation levels: level-1 subtrees are
-						// entered by every worker, level-2 subtrees by their owner only
-						if lvl == 2 {
-							h := uint64(14695981039346656037)
-							for _, c := range res.Choices[:i] {
-								h = (h ^ uint64(c+1)) * 1099511628211
-							}
-							h = (h ^ uint64(alt+77)) * 1099511628211
-							if int(h%uint64(o.NShards)) != o.Shard {
-								continue
-							}
+					if lvl == 1 && o.NShards > 1 {
+						// shard on the first deviation from the default schedule: the root
+						// execution is run by every worker, each level-1 subtree by one
+						h := uint64(14695981039346656037)
+						h = (h ^ uint64(i+1)) * 1099511628211
+						h = (h ^ uint64(alt+77)) * 1099511628211
+						h ^= h >> 29
+						if int(h%uint64(o.NShards)) != o.Shard {
+							continue
 						}
 					}
 					np := make([]int, i+1)
